@@ -9,6 +9,8 @@ import Proofs.KNProb
 import Proofs.KNCorpus3
 import Proofs.KNCorpus4
 import Proofs.KNInterp2
+import Proofs.KNOutput
+import Proofs.KNCorpus5
 /-!
 # C06 — lmplz output is a proper, closed, loadable language model
 
@@ -118,9 +120,43 @@ theorem normalised_stream (cfg : Cfg) (pv : Bool) (fallback : Option Disc) (corp
   rw [KV.KN.Interp.estimate_eq_spec cfg pv fallback corpus (by omega) hne hw hthr hk hfix hpv] at hm
   exact normalised_corpus cfg pv fallback corpus m hm h2 hne hw hthr ctx
 
-/- `intermediate_eq`: in the model the ARPA text and the intermediate files are two sinks of the
-same list `m.orders` / `m.header` (`Output::SinkProbs`), so there is nothing to prove; the check
-compares the real files value by value (float bit patterns) and the metadata counts. -/
+open KV.KN.Output in
+/-- **intermediate_eq**: over the model of `Output::SinkProbs` with both hooks (`writeBoth`): the
+ARPA text and the intermediate files carry the same metadata counts, the same number of orders
+and records per order, and line by line the same n-gram, the same probability and — wherever
+the ARPA prints one (all orders but the highest) — the same back-off; the ARPA is a function
+of the intermediate files. -/
+theorem intermediate_eq (m : Model) :
+    (writeBoth m).1.counts = (writeBoth m).2.counts ∧
+    (writeBoth m).1.sections.length = (writeBoth m).2.files.length ∧
+    (∀ i : Nat, (writeBoth m).1.sections[i]?.map List.length = (writeBoth m).2.files[i]?.map List.length) ∧
+    (∀ (i j : Nat) (line : ArpaLine), (writeBoth m).1.sections[i]?.bind (·[j]?) = some line →
+      ∃ r : InterRec, (writeBoth m).2.files[i]?.bind (·[j]?) = some r ∧ line.1 = r.1 ∧ line.2.1 = r.2.1 ∧
+        (∀ b, line.2.2 = some b → b = r.2.2) ∧
+        line.2.2.isSome = decide (i + 1 < (writeBoth m).2.files.length)) ∧
+    (writeBoth m).1 = arpaFromInter (writeBoth m).2 :=
+  KV.KN.Output.intermediate_eq m
+
+open KV.KN.Output in
+/-- with `header_counts_corpus` the metadata / header counts are the file / section lengths -/
+theorem intermediate_header (m : Model) (h : m.header = m.orders.map List.length) :
+    (interOf m).counts = (interOf m).files.map List.length ∧
+    (arpaOf m).counts = (arpaOf m).sections.map List.length :=
+  KV.KN.Output.intermediate_header m h
+
+/-- **specials, order-1 model** (`closed` is vacuous there: nothing of order ≥ 2 is written) -/
+theorem specials_corpus1 (cfg : Cfg) (pv : Bool) (fallback : Option Disc) (corpus : List (List Word)) (m : Model)
+    (hm : Spec.estimate cfg pv fallback corpus = .ok m) (h1 : cfg.order = 1) (hne : corpus ≠ [])
+    (hw : ∀ s ∈ corpus, ∀ w ∈ s, 3 ≤ w) :
+    (Query.lookup m.orders [unk]).isSome = true ∧ (Query.lookup m.orders [bos]).isSome = true ∧
+      (Query.lookup m.orders [eos]).isSome = true :=
+  KV.KN.Norm.specials_corpus1 cfg pv fallback corpus m hm h1 hne hw
+
+/-- **header_counts, order-1 model** -/
+theorem header_counts_corpus1 (cfg : Cfg) (pv : Bool) (fallback : Option Disc) (corpus : List (List Word)) (m : Model)
+    (hm : Spec.estimate cfg pv fallback corpus = .ok m) (h1 : cfg.order = 1) (hne : corpus ≠ [])
+    (hw : ∀ s ∈ corpus, ∀ w ∈ s, 3 ≤ w) : m.header = m.orders.map List.length :=
+  KV.KN.Norm.header_counts_corpus1 cfg pv fallback corpus m hm h1 hne hw
 
 /-- the order-1 model -/
 theorem normalised_corpus1 (cfg : Cfg) (pv : Bool) (fallback : Option Disc) (corpus : List (List Word))
